@@ -24,7 +24,7 @@
 #include <stdlib.h>
 #include <string.h>
 
-enum { F_NULL_KEY_STORED, F_NULL_KEY_EVICTED, F_NULL_KEY_REMOVED, F_OVERFLOW_EVICTION, F_OVERWRITE, F_CLEAR_NONEMPTY, F_LRU_USE, F_FIND_MISS, F_KIND_LHT, F_KIND_FIFO, F_KIND_LIFO, F_KIND_LRU };
+enum { F_NULL_KEY_STORED, F_NULL_KEY_EVICTED, F_NULL_KEY_REMOVED, F_OVERFLOW_EVICTION, F_OVERWRITE, F_CLEAR_NONEMPTY, F_LRU_USE, F_FIND_MISS, F_KIND_LHT, F_KIND_FIFO, F_KIND_LIFO, F_KIND_LRU, F_BIG_CAPACITY };
 
 enum { KIND_LHT, KIND_FIFO, KIND_LIFO, KIND_LRU };
 static const char *const KIND_NAME[] = {"linked_hash_table", "fifo_cache", "lifo_cache", "lru_cache"};
@@ -146,6 +146,83 @@ static void compare(const struct aws_linked_hash_table *t, size_t count) {
             return;
         }
     }
+}
+
+/* ------------------------------------------------------------------ caches configured for tens of thousands of entries
+ * filled to the brim with sequential integer keys: the count is compared after every put, the victim of the first
+ * overflows is looked up */
+static uint64_t s_big_destroyed;
+static void on_big_value_destroy(void *p) {
+    (void)p;
+    ++s_big_destroyed;
+}
+
+static void big_cache_case(void) {
+    struct mon_rng *r = &mon_case_rng;
+    static const size_t CAPS[] = {65535, 65536, 65537, 100000, 70001, 32769, 131073};
+    size_t cap = CAPS[mon_below(r, sizeof(CAPS) / sizeof(CAPS[0]))];
+    s_kind = 1 + (int)mon_below(r, 3);
+    s_max = cap;
+    s_op = "big";
+    s_hl = 0;
+    s_hist[0] = 0;
+    mon_fp(0xB16);
+    mon_fp((uint64_t)s_kind * 1000003 + cap);
+    struct aws_allocator *alloc = aws_default_allocator();
+    struct aws_cache *cache = s_kind == KIND_FIFO   ? aws_cache_new_fifo(alloc, aws_hash_ptr, aws_ptr_eq, NULL, on_big_value_destroy, cap)
+                              : s_kind == KIND_LIFO ? aws_cache_new_lifo(alloc, aws_hash_ptr, aws_ptr_eq, NULL, on_big_value_destroy, cap)
+                                                    : aws_cache_new_lru(alloc, aws_hash_ptr, aws_ptr_eq, NULL, on_big_value_destroy, cap);
+    if (!cache) {
+        mon_violation("C18:int:init", "aws_cache_new_* (max_items %zu) returned NULL", cap);
+        return;
+    }
+    s_big_destroyed = 0;
+    uint64_t v0 = mon_violations();
+    size_t extra = 1 + (size_t)mon_below(r, 50);
+    for (size_t k = 0; k < cap + extra && mon_violations() == v0; ++k) {
+        /* keys 1..; values are the key again (never dereferenced) */
+        if (aws_cache_put(cache, (void *)(uintptr_t)(k + 1), (void *)(uintptr_t)(k + 1))) {
+            mon_violation("C18:int:put-failed", "%s max=%zu: put number %zu failed", KIND_NAME[s_kind], cap, k + 1);
+            break;
+        }
+        size_t count = aws_cache_get_element_count(cache);
+        size_t want = k + 1 < cap ? k + 1 : cap;
+        uint64_t want_destroyed = k + 1 > cap ? k + 1 - cap : 0;
+        if (count != want || s_big_destroyed != want_destroyed) {
+            mon_violation("C18:int:big-count", "%s with max_items %zu: after %zu puts of distinct keys the cache holds %zu entries (expected %zu) and %llu values were destroyed (expected %llu)",
+                          KIND_NAME[s_kind], cap, k + 1, count, want, (unsigned long long)s_big_destroyed, (unsigned long long)want_destroyed);
+            break;
+        }
+    }
+    if (mon_violations() == v0) {
+        /* which keys went? FIFO / LRU (no finds in between): the oldest `extra`; LIFO: the entries inserted just before each overflowing put */
+        void *out = NULL;
+        uintptr_t gone = s_kind == KIND_LIFO ? cap : 1, kept = s_kind == KIND_LIFO ? 1 : extra + 1;
+        aws_cache_find(cache, (void *)gone, &out);
+        if (out != NULL) {
+            mon_violation("C18:int:big-victim", "%s max=%zu after %zu extra puts: key %zu should have been evicted but is still found", KIND_NAME[s_kind], cap, extra, (size_t)gone);
+        }
+        out = NULL;
+        aws_cache_find(cache, (void *)kept, &out);
+        if (out != (void *)kept) {
+            mon_violation("C18:int:big-victim", "%s max=%zu after %zu extra puts: key %zu should still be cached but find returned %p", KIND_NAME[s_kind], cap, extra, (size_t)kept, out);
+        }
+        out = NULL;
+        aws_cache_find(cache, (void *)(uintptr_t)(cap + extra), &out);
+        if (out != (void *)(uintptr_t)(cap + extra)) {
+            mon_violation("C18:int:big-victim", "%s max=%zu: the entry just inserted is not found", KIND_NAME[s_kind], cap);
+        }
+    }
+    aws_cache_destroy(cache);
+    if (mon_violations() == v0 && s_big_destroyed != cap + extra) {
+        mon_violation("C18:int:value-destructor", "%s max=%zu: %zu values put, %llu destroyed after the cache was destroyed", KIND_NAME[s_kind], cap, cap + extra,
+                      (unsigned long long)s_big_destroyed);
+    }
+    mon_flag(F_BIG_CAPACITY);
+    mon_flag(F_KIND_LHT + s_kind);
+    mon_flag(F_OVERFLOW_EVICTION);
+    mon_flag(F_FIND_MISS);
+    mon_count("caches_with_capacity_above_32768_filled", 1);
 }
 
 static void run_case(void) {
@@ -339,13 +416,18 @@ int main(int argc, char **argv) {
     mon_init(argc, argv, "C18");
     aws_common_library_init(aws_default_allocator());
     static const char *names[] = {"null_key_stored", "null_key_evicted_on_overflow", "null_key_removed", "overflow_eviction", "overwrite_existing_key", "clear_nonempty",
-                                  "lru_use_lru_element", "find_absent_key", "int_keys_linked_hash_table", "int_keys_fifo", "int_keys_lifo", "int_keys_lru"};
+                                  "lru_use_lru_element", "find_absent_key", "int_keys_linked_hash_table", "int_keys_fifo", "int_keys_lifo", "int_keys_lru", "cache_capacity_above_32768_filled_to_overflow"};
     for (int i = 0; i < (int)(sizeof(names) / sizeof(names[0])); ++i) {
         mon_flag_name(i, names[i]);
     }
     uint64_t c;
     while (mon_next_case(&c)) {
         mon_case_begin(c);
+        if (c % 1024 == 1023) {
+            big_cache_case();
+            mon_case_end(true);
+            continue;
+        }
         run_case();
         mon_case_end(mon_flag_count() >= 4);
     }
